@@ -31,6 +31,13 @@ Theorem C09_kept_state : forall c l k rel, update_rr c l = Some (k, rel) -> NoDu
 Proof. exact update_keeps_state. Qed.
 Print Assumptions C09_kept_state.
 
+(* A sub-cluster that stays in the gslb conf keeps its backend objects verbatim through BalanceGslb.Reload
+   (only its weight is rewritten). *)
+Theorem C09_kept_subcluster : forall g l nl rel s w, reload_gslb g l = Some (nl, rel, false) ->
+  In s l -> gfind (sname s) g = Some w -> In (mkSub (sname s) w (sbks s)) nl.
+Proof. exact gslb_keeps. Qed.
+Print Assumptions C09_kept_subcluster.
+
 (* A newly configured address gets a fresh backend that is available, never released, with the configured weight
    (the last entry of a duplicated address wins). *)
 Theorem C09_added_selectable : forall c l k rel a n w, update_rr c l = Some (k, rel) ->
